@@ -158,8 +158,23 @@ def linetxt(ln, names, style):
     return "%s %s %s" % (lhs, op, rhs)
 
 
-def systxt(prog, names, style):
-    return "\n".join(linetxt(ln, names, style) for ln in prog)
+SPACINGS = ("asis", "airy", "tight", "wide")
+
+
+def respace(text, spacing):
+    """the same text with other white space (white space carries no meaning in a system): blanks around every * and /
+    ('x0 / x1 <= 3'), no blanks at all ('x0/x1<=3'), doubled blanks and a tab after the comparator"""
+    if spacing == "airy":
+        return "\n".join(re.sub(r"\s*([*/])\s*", r" \1 ", ln).replace(" *  * ", "**") for ln in text.split("\n"))
+    if spacing == "tight":
+        return "\n".join(ln.replace(" ", "") for ln in text.split("\n"))
+    if spacing == "wide":
+        return "\n".join(_CMP.sub(lambda m: m.group(1) + "\t", ln.replace(" ", "  "), count=1) for ln in text.split("\n"))
+    return text
+
+
+def systxt(prog, names, style, spacing="asis"):
+    return respace("\n".join(linetxt(ln, names, style) for ln in prog), spacing)
 
 
 def shape(ln):
@@ -574,8 +589,9 @@ def make_jobs(name, hdr, states, seed, thorough):
             for n, (si, sti) in enumerate(picks):
                 tag, vararg, nm = SCHEMES[si]
                 style = STYLES[sti]
-                job = dict(base, scheme=tag, style=style, vars=vararg, names=nm[:nv],
-                           text=systxt(s["p"], nm, style), prog=s["p"], also_one=(i % 4 == 0 and n == 0))
+                spacing = SPACINGS[(i // 2 + n + seed) % len(SPACINGS)] if i % 2 else "asis"
+                job = dict(base, scheme=tag, style=style, vars=vararg, names=nm[:nv], spacing=spacing,
+                           text=systxt(s["p"], nm, style, spacing), prog=s["p"], also_one=(i % 4 == 0 and n == 0))
                 jobs.append(job)
         elif use == "solve":
             tag, vararg, nm = SCHEMES[(i + seed) % len(SCHEMES)]
